@@ -27,6 +27,11 @@ is a subclass that adds a few things, each fail closed (notes/TRANSLATOR.md, "Ph
   `xs = []; while TEST: BODY; return xs` (xs is called `carried` in the translation) is translated as two functions: BODY as a function of the carried
   list (an in-out parameter, listed under `writes`) and TEST as a boolean function of it.  The frame (the three
   statements) is checked, the iteration itself (repeat BODY while TEST) is not translated;
+* `"kwargs": "archive=self.archive"` on an effect: the call carries exactly these keyword arguments (pinned by text, not
+  translated: what they hand over is part of the oracle);
+* `"assigns": "arg0"` on an effect with a list result (statement only): the callee modifies the LOCAL list it
+  gets as its first argument in place (`self.selector.pop_acceptance(individuals, individual)`); the oracle's result is
+  the list's new value (a hidden loop-carried local, like the event log);
 * logging calls (`silent`) may be given arithmetic over plain values (`"{}".format(a * b)`).
 
 Everything else is as in py2coq_eff.py.  Stdlib only.
@@ -67,7 +72,10 @@ class RunTranslator(eff.EffTranslator):
         # `"fresh": true` on an effect: the call returns a NEW list object that nobody else holds (the function may
         # append to it); trusted, like the `fresh` flag of an oracle in py2coq.py
         fresh = [d["call"] for d in spec.get("effects", []) if d.get("fresh")]
-        spec2["effects"] = [{k: v for k, v in d.items() if k not in ("fresh", "pair")} for d in spec.get("effects", [])]
+        spec2["effects"] = [{k: v for k, v in d.items() if k not in ("fresh", "pair", "kwargs", "assigns")}
+                            for d in spec.get("effects", [])]
+        self.eff_kwargs = {d["call"]: d["kwargs"] for d in spec.get("effects", []) if d.get("kwargs")}
+        self.eff_assigns = {d["call"]: d["assigns"] for d in spec.get("effects", []) if d.get("assigns")}
         for k in ("mode", "carried"):
             spec2.pop(k, None)
         super().__init__(mod, cls, name, spec2, node, done)
@@ -80,6 +88,12 @@ class RunTranslator(eff.EffTranslator):
             if not base.is_list(self.effects[f].ret):
                 raise Unsupported("effect %s: `fresh` needs a list as result" % f, node, self.qual)
         self.fresh_oracles = set(self.fresh_oracles) | set(fresh)
+        for f, loc in self.eff_assigns.items():
+            e = self.effects[f]
+            if loc != "arg0":
+                raise Unsupported("effect %s: `assigns` is \"arg0\" (the local list passed as first argument)" % f, node, self.qual)
+            if not base.is_list(e.ret) or not e.args or e.args[0] != ("value", e.ret) or e.sets or e.new or e.raises:
+                raise Unsupported("effect %s: `assigns` needs a list result of the type of its first argument" % f, node, self.qual)
         self.stores = {}
         for r, fs in spec.get("stores", {}).items():
             if r not in self.opaque and r not in self.records:
@@ -110,6 +124,11 @@ class RunTranslator(eff.EffTranslator):
 
     def hidden_assigned(self, stmts):
         out = super().hidden_assigned(stmts)
+        for st in stmts:
+            for nd in ast.walk(st):
+                if isinstance(nd, ast.Call) and self.eff_name(nd.func) in self.eff_assigns and nd.args \
+                        and isinstance(nd.args[0], ast.Name) and nd.args[0].id not in out:
+                    out.append(nd.args[0].id)
         if "evlog" not in out:
             for st in stmts:
                 for nd in ast.walk(st):
@@ -152,6 +171,20 @@ class RunTranslator(eff.EffTranslator):
         return super().expr(n, env, want)
 
     def effect_call(self, n, e, env):
+        if n.keywords and e.name in self.eff_kwargs:
+            if ", ".join(ast.unparse(kw) for kw in n.keywords) != self.eff_kwargs[e.name]:
+                raise self.err("keyword arguments of %s are not the ones the spec pins (%r)" % (e.name, self.eff_kwargs[e.name]), n)
+            for kw in n.keywords:
+                for nd in ast.walk(kw.value):
+                    if isinstance(nd, ast.Name) and nd.id != "self":
+                        raise self.err("pinned keyword argument of %s reads the local %r" % (e.name, nd.id), n)
+            import copy as _copy
+            n2 = _copy.copy(n)
+            n2.keywords = []
+            n2._kw_pinned = True
+            return self.effect_call(n2, e, env)
+        if e.name in self.eff_kwargs and not n.keywords and not getattr(n, "_kw_pinned", False):
+            raise self.err("effect %s is called without the keyword arguments the spec pins" % e.name, n)
         if e.receiver is not None and e.receiver in self.records and e.receiver not in self.opaque:
             # a method of a record-typed local (`parent1.__class__(v)`): the object is the oracle's first argument
             self.opaque.append(e.receiver)
@@ -204,6 +237,17 @@ class RunTranslator(eff.EffTranslator):
             self.setup_ok(s)
             self.setup_seen[ast.unparse(s)] = self.setup_seen.get(ast.unparse(s), 0) + 1
             return self.block(rest, env, ctx, k)
+        if isinstance(s, ast.Expr) and isinstance(s.value, ast.Call) and self.eff_name(s.value.func, env) in self.eff_assigns:
+            e = self.effects[self.eff_name(s.value.func, env)]
+            a0 = s.value.args[0] if s.value.args else None
+            if not (isinstance(a0, ast.Name) and env.get(a0.id) == e.ret):
+                raise self.err("the first argument of %s is not a local list" % e.name, s)
+            loc = a0.id
+            if loc in [w for w, _ in self.writes] or loc in self.loop_targets:
+                raise self.err("effect %s assigns %r, which is not a plain local" % (e.name, loc), s)
+            (x, _), pre = self.with_pre(lambda: self.effect_call(s.value, e, env))
+            inner = "let %s := %s in\n%s" % (mangle(loc), x, self.block(rest, env, ctx, k))
+            return self.wrap(pre, inner, ctx, env)
         if isinstance(s, ast.Assign) and len(s.targets) == 1 and isinstance(s.targets[0], ast.Tuple) \
                 and isinstance(s.value, ast.Call) and self.eff_name(s.value.func, env) in self.effects:
             e = self.effects[self.eff_name(s.value.func, env)]
